@@ -160,9 +160,9 @@ pub fn parameter_has_annotation(lines: &[&str], line: usize, end_char: usize) ->
     };
 
     // Get the text after the parameter name
-    let after_param = if end_char < line_text.len() {
-        &line_text[end_char..]
-    } else {
+    // `end_char` may be stale relative to the current text (recorded before an
+    // unparsable edit) or fall inside a multi-byte character.
+    let Some(after_param) = line_text.get(end_char..).filter(|s| !s.is_empty()) else {
         return false;
     };
 
